@@ -736,10 +736,12 @@ def f_conj(x, *a, **k):
 
 
 def f_angle(x):
+    """np.angle: a real-valued symbol theta whose (cos, sin) are known algebraically (so that theta can be averaged,
+    scaled ... as a real number and exp(i*theta) still resolves)"""
     if isinstance(x, SC):
-        return S.arctan2(x.im, x.re)
+        return S.angle_value(S.arctan2(x.im, x.re))
     if isinstance(x, SR):
-        return S.arctan2(S.ZERO(), x)
+        return S.angle_value(S.arctan2(S.ZERO(), x))
     if isinstance(x, _np.ndarray) and _rdt(x) == object:
         out = _np.empty(x.shape, dtype=object)
         for idx in _np.ndindex(x.shape):
